@@ -317,13 +317,21 @@ def run_case(case):
             obs["transitions_executed"] += 1
             err = _virtual_transition(np, out, i)
             if err:
-                viol("pyramid-computation-refuses-generated-scales",
+                # the recorded mechanisms are about transitions that are REFUSED (an
+                # exception); data written wrongly is never covered by them
+                refused = not err.startswith("wrote ")
+                viol("pyramid-computation-refuses-generated-scales" if refused
+                     else "pyramid-computation-writes-wrong-data-for-generated-scales",
                      f"transition {old['key']}({old['chunk_sizes'][0]}) -> "
-                     f"{new['key']}({new['chunk_sizes'][0]}) factors {f}: {err}", known)
+                     f"{new['key']}({new['chunk_sizes'][0]}) factors {f}: {err}",
+                     known if refused else None)
                 break
             if not comp:
-                return {"violations": v, "obs": obs, "harness_error":
-                        f"predicate says incompatible but the real run was fine: {ctx} {i}"}
+                # the real code assembled the (size-reduced) transition correctly although
+                # the arithmetic predicate calls the chunk sizes incompatible: the executed
+                # run decides; the disagreement is only counted
+                obs["real_run_accepts_what_predicate_rejects"] = obs.get(
+                    "real_run_accepts_what_predicate_rejects", 0) + 1
         else:
             obs["transitions_arith_only"] += 1
             if not comp:
